@@ -17,10 +17,10 @@ RULE = (
     "package trees from a layout grammar: base module vq_m1 defining function / class / variable with __all__ absent, "
     "partial or full; re-exporter vq_m2 in {from-import, from-import-as, star import, plain import, re-export then own "
     "definition of the same name, own definition then import}; optional third hop vq_m3; package vq_p with __init__ "
-    "re-exporting vq_p.vq_sub (12 layouts) x client forms: from X import n, import-as, star import, import X, import "
+    "re-exporting vq_p.vq_sub (13 layouts) x client forms: from X import n, import-as, star import, import X, import "
     "X.sub, duplicate / partially duplicate / stacked / unsorted imports, imports inside a function / if / try, unused "
     "imports, dotted stdlib modules, star imports from the stdlib, names the tool would guess (Path, Sequence, math, os) "
-    "undefined-in-dead-code and locally defined (44 clients). drivers: fix_starred_imports, fix_reimported_names, "
+    "undefined-in-dead-code and locally defined (49 clients). drivers: fix_starred_imports, fix_reimported_names, "
     "remove_unused_imports, fix_duplicate_imports, sort_imports, move_imports_to_toplevel, add_missing_imports alone, and "
     "format_code (default, keep_imports, safe), with cwd = the tree. oracle: the client hands every referenced object to "
     "a sink; original and rewritten client are executed in the same interpreter (scrubbed sys.modules before, modules "
@@ -45,6 +45,7 @@ LAYOUTS = {
     "three_hops": {"vq_m1.py": M1, "vq_m2.py": "from vq_m1 import f, C, V\n", "vq_m3.py": "from vq_m2 import f, C\nfrom vq_m2 import V as W\n"},
     "own_then_star_all": {"vq_m1.py": M1 + "__all__ = ['f', 'C']\n", "vq_m2.py": "V = 'own V'\nfrom vq_m1 import *\n"},
     "alias_and_own": {"vq_m1.py": M1, "vq_m2.py": "def f():\n    return 'own f'\nfrom vq_m1 import f as g\nfrom vq_m1 import C, V\n"},
+    "reexport_module_alias": {"vq_m1.py": M1, "vq_m2.py": "import vq_m1 as vq_h\nimport json as vq_js\nimport vq_m1\nfrom vq_m1 import f, C, V\n"},
     "package": {"vq_p/__init__.py": "from vq_p.vq_sub import f, C\nfrom vq_p import vq_sub\n", "vq_p/vq_sub.py": M1},
 }
 
@@ -76,6 +77,11 @@ CLIENTS = {
     "import_order_matters2": "from os import sep as f\nfrom {M} import f\nvq_sink(f)\n",
     "attribute_chain": "import {M}\nx = {M}.C\nvq_sink(x, {M}.V)\n",
     "from_in_class": "class K:\n    from {M} import f\nvq_sink(K.f)\n",
+    "from_module_alias": "from {M} import vq_h\nvq_sink(vq_h, vq_h.f)\n",
+    "from_module_alias_as": "from {M} import vq_h as hh\nvq_sink(hh, hh.C)\n",
+    "from_module_plain": "from {M} import vq_m1\nvq_sink(vq_m1, vq_m1.f)\n",
+    "from_stdlib_alias": "from {M} import vq_js\nvq_sink(vq_js, vq_js.dumps)\n",
+    "from_module_alias_and_name": "from {M} import vq_h, f\nvq_sink(vq_h.f, f)\n",
     "two_modules_same_name": "from {M} import f\nfrom vq_m1 import f as f1\nvq_sink(f, f1)\n",
 }
 STDLIB_CLIENTS = {
